@@ -15,7 +15,7 @@ META = dict(
     functions=["Bf3File.bf2_unpack_payload", "Bf3File.bf2_convert_payload", "Bf3File.bf2_import", "Bf3File.exec_bf2instrs", "Bf3File.annotations", "is_known_tagtype", "pfid2_filter_to_str"],
     stubs=["S-io", "parse_bf2_file replaced by a symbolic object list (bf2_import jobs)"],
     assumptions=[],
-    bounds=dict(quick="1..3 lines, payload lengths 1..3 (+ one 250-byte line), 5 relations x 3 first addresses; import shapes: one section per mapped tag type, two sections, ignored 0x34/0x48 sections, with/without Bf3Update, gap, unknown tag type; filters with up to 3 entries", thorough="1..4 lines"),
+    bounds=dict(quick="1..3 lines, payload lengths 1..3 (+ one 250-byte line), 5 relations x 3 first addresses; import shapes: one section per mapped tag type, two sections, ignored 0x34/0x48 sections, with/without Bf3Update, gap, unknown tag type; paged images (one data group per 64 KiB page, last two lines symbolic at the boundary of the last page of the 200000-byte range) for families 0x35, 0x39, 0x40, 0x70, 0x84 (0x3D with its two documented pages: thorough); filters with up to 3 entries", thorough="1..4 lines"),
     outside=["text tokenising of real BF2 files", "images longer than 4 lines", "overlapping lines that start a second extent at an already used start address (reported if accepted silently)"],
 )
 
@@ -59,6 +59,9 @@ def jobs(tier, seed):
     J.append(dict(name="unpack:longline", kind="unpack", k=2, pats=[(0, ["contig"]), (0, ["gap1"])], lens=[250, 2], timeout=900, cost=200))
     for shape in ("one-main", "one-loader", "one-peripheral-sm4200", "one-ble", "ble-filter-2", "ble-filter-3", "ble-plain-filter", "two-sections", "crc-then-no-crc", "ignored-prepare", "no-marker", "gap-in-blob", "unknown-tagtype", "unmapped-known-tagtype"):
         J.append(dict(name="import:%s" % shape, kind="import", shape=shape, timeout=900, cost=100))
+    # images reaching the last 64 KiB page of the property's 200000-byte range (tag type = base + page), per mapped family
+    for base in (0x35, 0x39, 0x40, 0x70, 0x84) + ((0x3D,) if tier != "quick" else ()):
+        J.append(dict(name="import:paged:0x%02X" % base, kind="import", shape="paged:0x%02X" % base, timeout=1500, cost=300))
     for n in (1, 2, 3):
         J.append(dict(name="pfid2:%dentries" % n, kind="pfid2", n=n, timeout=900, cost=50 * n))
     J.append(dict(name="pfid2:malformed", kind="pfid2bad", timeout=600, cost=20))
@@ -71,6 +74,43 @@ def mk_line(bf, tagtype_base, adr, payload, raw):
     page, off = adr >> 16, adr & 0xFFFF
     fwtag = bytes([len(payload) + 2, off >> 8, off & 0xFF]) + payload
     return bf.Bf2BinLine(tagtype_base + page, 0, fwtag, raw)
+
+
+# documented families: first tag type -> (BF3 type, hardware id name, format, interface); the number of pages checked is the
+# 200000-byte range of the property (4 pages) except where the documentation reserves fewer tag types
+PAGED_FAMILIES = {0x35: (1, "SM4200", 0, 5), 0x39: (1, "BGM12X", 0, None), 0x40: (1, "SM6300", 0, 5), 0x3D: (1, "PN5180", 0, 5), 0x70: (0, None, 2, None), 0x84: (2, None, 2, None)}
+PAGED_PAGES = {0x3D: 2}
+
+
+def paged_section(bf, base, mkbytes):
+    """data group whose image ends in the last page: 250-byte concrete filler lines from address 0 (blob sections must be
+    contiguous), then a line ending at the page boundary and one starting the last page (both from mkbytes)"""
+    pages = PAGED_PAGES.get(base, 4)
+    last = (pages - 1) << 16
+    lines, pays, adr, i = [], [], 0, 0
+    blobfmt = PAGED_FAMILIES[base][2] == 0
+    if blobfmt:
+        while adr < last - 2:
+            n = min(250, last - 2 - adr)
+            p = bytes((adr + k) * 7 & 0xFF for k in range(n))
+            lines.append(mk_line(bf, base, adr, p, bytes([i & 0xFF, 1, 2, 3])))
+            pays.append(p)
+            adr += n
+            i += 1
+    else:
+        # raw-line sections need no contiguity: one line at address 0 (the section's family is that of its first line)
+        p = mkbytes("sp0_", 2)
+        lines.append(mk_line(bf, base, 0, p, mkbytes("rawp0_", 4)))
+        pays.append(p)
+        adr = last - 2
+    tail = []
+    for nm in ("pa", "pb"):
+        p = mkbytes("s%s_" % nm, 2)
+        lines.append(mk_line(bf, base, adr, p, mkbytes("raw%s_" % nm, 4)))
+        pays.append(p)
+        tail.append(p)
+        adr += 2
+    return lines, pays, tail
 
 
 def extents_model(adrs, payloads):
@@ -229,6 +269,23 @@ def run_job(job):
                 ls, ps = section(0x10, 1, tag="a")
                 objs = marker + [("load", ls), ("REBOOT", {})]
                 reject = Bf3FileFormatError
+            elif shape.startswith("paged:"):
+                base = int(shape[6:], 16)
+                ls, ps, tail = paged_section(bf, base, lambda nm, n: sym.sym_bytes(nm, n))
+                typ, hw, fmt, intf = PAGED_FAMILIES[base]
+                # one data group per 64 KiB page, as the BF2 tool chain lays images out
+                groups = []
+                for l in ls:
+                    if not groups or groups[-1][0].fwtagtype != l.fwtagtype:
+                        groups.append([])
+                    groups[-1].append(l)
+                objs = fwline + marker + ([("CHECK_FWVER", {"VERSIONDESC": "*"})] if typ == 2 else [("SELECT_IF", {"PROTOCOL": "BRP-SER"})] if typ == 0 else []) + [("load", g) for g in groups] + [("REBOOT", {})]
+                blob = b"".join(ps) if fmt == 0 else b"".join(l.rawdata for l in ls)
+                expect = [dict(type=bytes([typ]), fmt=bytes([fmt]), blob=blob, reboot=True)]
+                if typ == 0:
+                    expect[0]["intf"] = b"\x01"
+                if hw:
+                    expect[0]["hwcid"] = bf.HWCID_MAP[hw].to_bytes(2, "big")
             bf.Bf3File.parse_bf2_file = classmethod(lambda cls, f: iter(objs))
             try:
                 f = bf.Bf3File.bf2_import(io.StringIO(""))
@@ -414,6 +471,36 @@ def replay(job):
             crcs = [c.description.get(0xC7) for c in f.components]
             bad = sorted(x is not None for x in crcs) != [False, True]
             return dict(reproduced=bad, signature="C13:import:" + shape, detail="BF2 text with ##CRC on the first section only -> CRC tags %s" % crcs)
+        elif shape.startswith("paged:"):
+            base = int(shape[6:], 16)
+            typ, hw, fmt, intf = PAGED_FAMILIES[base]
+            cnt = [0]
+
+            def mk(nm, n):
+                cnt[0] += 1
+                return bytes((cnt[0] * 37 + k) & 0xFF for k in range(n))
+
+            ls, ps, tail = paged_section(bf, base, mk)
+            txt += "##Firmware: 1100 FW_NAME   1.23.04 01/01/24 12345678\n"
+            txt += "#>CHECK_FWVER VERSIONDESC=*\n" if typ == 2 else "#>SELECT_IF PROTOCOL=BRP-SER\n" if typ == 0 else ""
+            prev = None
+            raws = []
+            for i, (l, p_) in enumerate(zip(ls, ps)):
+                if prev is not None and prev != l.fwtagtype:
+                    txt += end
+                prev = l.fwtagtype
+                r = (i & 0xFFFF).to_bytes(2, "big") + bytes([l.fwtagtype, len(l.fwtag)]) + l.fwtag
+                raws.append(r)
+                txt += ":" + r.hex().upper() + "\n"
+            txt += end + "#>REBOOT\n"
+            try:
+                f = bf.Bf3File.bf2_import(io.StringIO(txt))
+            except Exception as e:
+                return dict(reproduced=True, signature="C13:import:" + shape, detail="gap-free %d-byte image of family 0x%02X, one data group per 64 KiB page (last group tag type 0x%02X): %s: %s" % (sum(map(len, ps)), base, prev, type(e).__name__, e))
+            want = b"".join(ps) if fmt == 0 else None
+            got = f.components[0].blob if len(f.components) == 1 else None
+            bad = got is None or (want is not None and got != want) or (want is None and not all(p_ in got for p_ in ps))
+            return dict(reproduced=bad, signature="C13:import:" + shape, detail="paged image of family 0x%02X imported with different payload" % base)
         else:
             txt += line(0x35, 0, b"\xAA\xBB") + line(0x35, 2, b"\xCC\xDD") + end + "#>REBOOT\n"
         try:
